@@ -94,7 +94,7 @@ def prepare(hist, tmp, tag):
             viol.append(('C01:committed-content', 'transaction %d (tid %x): %s' % (k, t['tid'], what), None))
     ctx.ends = [4] + [t['end'] for t in txs]
     # ---- reference storages: exactly the first n transactions
-    ctx.refs, ctx.ref_dumps = {}, []
+    ctx.refs, ctx.ref_dumps, ctx.refs_noit = {}, [], {}
     refdir = os.path.join(tmp, 'ref-' + tag)
     for n in range(len(txs) + 1):
         L.write_dir(refdir, {'Data.fs': rr.final[:ctx.ends[n]]})
@@ -106,6 +106,7 @@ def prepare(hist, tmp, tag):
         d.pop('used_index', None)
         ctx.ref_dumps.append(d)
         ctx.refs.setdefault(L.canon(d), []).append(n)
+        ctx.refs_noit.setdefault(L.canon({k: v for k, v in d.items() if k != 'iterator_start'}), []).append(n)
     # ---- O3: fsync between the status-byte write and the ret mark; no later write below the end
     evs = rr.events
     nret = 0
@@ -211,6 +212,7 @@ def cut_images(ctx, cuts):
 
 
 # ---------------------------------------------------------------- judging one cut (worker)
+ITER_START_ERRORS = ('err:CorruptedError', 'err:CorruptedDataError', 'err:ValueError')
 _WORKDIR = {}
 
 
@@ -228,11 +230,31 @@ def judge(task):
     returned = cut[3]
     wd = _workdir()
     obs = {}
+    known = []
+    obs['_known'] = known
 
     def match(d, mode):
         d = dict(d)
         d.pop('used_index', None)
         ns = ctx.refs.get(L.canon(d))
+        if ns is None and mode == 'read-only':
+            # the recorded open finding, and nothing but it: read-only, unfinished tail in the file,
+            # iterator(start) RAISED where the committed-prefix answer was expected, every other key
+            # (and every iterator(start) entry that did not raise) equal to the prefix's
+            d2 = {k: v for k, v in d.items() if k != 'iterator_start'}
+            ns2 = ctx.refs_noit.get(L.canon(d2))
+            if ns2:
+                for n in ns2:
+                    want, got = ctx.ref_dumps[n].get('iterator_start'), d.get('iterator_start')
+                    if len(data) > ctx.ends[n] and isinstance(got, list) and isinstance(want, list) and \
+                            len(got) == len(want) and got != want and \
+                            all(g == w or g in ITER_START_ERRORS for g, w in zip(got, want)):
+                        known.append(('C01:ro-iterator-start-raises-on-torn-tail',
+                                      'read-only reopen of a crash image with an unfinished tail: iterator(start) raises '
+                                      '%s instead of yielding the committed transactions from start on (all other '
+                                      'queries show prefix n=%d)' % (sorted({g for g in got if isinstance(g, str)}), n)))
+                        ns = [n]
+                        break
         if ns is None:
             # which prefix is closest, and on which keys does it differ?
             best = None
@@ -245,8 +267,6 @@ def judge(task):
                 sig = 'C01:ltid-of-discarded-tail'
             elif mode == 'read-only' and best[1] == ['iterator'] and d.get('iterator') == 'err:CorruptedDataError':
                 sig = 'C01:ro-iterator-raises-on-short-tail'
-            elif best[1] == ['iterator_start'] and any(isinstance(x, str) for x in d.get('iterator_start', [])):
-                sig = 'C01:ro-iterator-start-raises-on-torn-tail'
             return None, (sig, '%s reopen of the crash image shows a state that is not that of any prefix '
                           'of the committed transactions; closest prefix n=%d differs on %s (e.g. %s: got %s, '
                           'prefix has %s)' % (mode, best[0], best[1][:6], best[1][0],
@@ -267,7 +287,7 @@ def judge(task):
     if v:
         return cut, v, obs
     after = L.read_dir(wd).get('Data.fs', b'')
-    obs = dict(n=n, pos=d['pos'], ltid=d['lastTransaction'], after_len=len(after), cut_len=len(data))
+    obs = dict(n=n, pos=d['pos'], ltid=d['lastTransaction'], after_len=len(after), cut_len=len(data), _known=known)
     if len(data) <= 20000:
         obs['after_fnv'] = L.fnv64(after)
         obs['cut_fnv'] = L.fnv64(data)
@@ -335,6 +355,10 @@ def check_history(hist, ck, tag, pool_size, rng, tier, limit=None, stop_early=Fa
         if v and v[0] not in seen_sig:
             seen_sig.add(v[0])
             res['violations'].append((v[0], v[1], [cut[0], cut[1]]))
+        for ks, kw in obs.get('_known', []):
+            if ks not in seen_sig:
+                seen_sig.add(ks)
+                res['violations'].append((ks, kw, [cut[0], cut[1]]))
     res['results'] = results
     # model lines
     try:
@@ -468,6 +492,10 @@ def main(argv=None):
             if obs.get('used_index') is not None:
                 ck.count('used_index=%s' % obs['used_index'])
         for sig, what, cut in res['violations']:
+            import re as _re
+            if any(k.get('status', 'open') == 'open' and _re.fullmatch(k['signature'], sig) for k in ck.known):
+                ck.violation(sig, what, case_of(hist, cut))          # listed open finding: no need to shrink
+                continue
             small, scut, swhat = shrink(hist, sig, ck, cut, what)
             ck.violation(sig, swhat, case_of(small, scut))
         if res.get('model_error'):
